@@ -402,8 +402,148 @@ def solution_key(out, labelled):
             canon.output_key(out, labelled))
 
 
+# --------------------------------------------------------------------------------------
+# real-process cross-check of the simulated process boundary (seam S3)
+# --------------------------------------------------------------------------------------
+def _plain_doc(case):
+    doc = input_document(case)[0]
+    return doc
+
+
+def _canon_lines(text, mode):
+    """Canonical, order-free view of what a reconcile process wrote."""
+    keys = []
+    for line in text.split("\n"):
+        if not line.strip():
+            continue
+        try:
+            data, out = parse_solution(line)
+        except Exception as exc:  # noqa: BLE001
+            keys.append("UNREADABLE " + type(exc).__name__)
+            continue
+        keys.append(repr(solution_key(out, "syntenies" in data)))
+    return sorted(keys)
+
+
+def simulated_reconcile(case, policy, order, to_stdout):
+    """One fault-free simulated `reconcile` process -> (status, printed cost, canonical lines)."""
+    doc = _plain_doc(case)
+    fs = SimFS()
+    fs.put("in.json", json.dumps(doc))
+    extra, _ = cost_args(case)
+    argv = ["reconcile", "--input", "in.json"]
+    if not to_stdout:
+        argv += ["--output", "out.json"]
+    argv += [case["algo"], "--solutions", policy] + extra
+    proc = run_process(fs, argv, "", order, 0)
+    text = proc.stdout if to_stdout else fs.text("out.json")
+    printed = COST_RE.findall(proc.stderr)
+    return proc.status, printed, _canon_lines(text, e1_solver.MODE[case["algo"]])
+
+
+def real_reconcile(case, policy, hashseed, to_stdout):
+    """The same command as a real child process of the uninstrumented package: real files in
+    a scratch directory, real stdout / stderr, a real exit status, a real hash seed."""
+    import os
+    import shutil
+    import subprocess
+    import tempfile
+
+    from .kernel import SRC
+
+    doc = _plain_doc(case)
+    scratch = tempfile.mkdtemp(prefix="e4real.")
+    try:
+        with open(os.path.join(scratch, "in.json"), "w") as handle:
+            json.dump(doc, handle)
+        extra, _ = cost_args(case)
+        argv = [sys.executable, "-m", "superrec2.cli", "reconcile", "--input", "in.json"]
+        if not to_stdout:
+            argv += ["--output", "out.json"]
+        argv += [case["algo"], "--solutions", policy] + extra
+        env = {k: v for k, v in os.environ.items() if not k.startswith("VERIF_")}
+        env.update(PYTHONHASHSEED=str(hashseed), PYTHONPATH=SRC, PYTHONDONTWRITEBYTECODE="1")
+        proc = subprocess.run(argv, cwd=scratch, env=env, capture_output=True, text=True,
+                              timeout=300, stdin=subprocess.DEVNULL)
+        text = proc.stdout
+        if not to_stdout:
+            path = os.path.join(scratch, "out.json")
+            text = open(path).read() if os.path.exists(path) else ""
+        printed = COST_RE.findall(proc.stderr)
+        return proc.returncode, printed, _canon_lines(text, e1_solver.MODE[case["algo"]])
+    finally:
+        shutil.rmtree(scratch, ignore_errors=True)
+
+
+def real_check(run, case):
+    """Simulated process vs real process, same command: exit status, printed minimum and the
+    set of written solutions must agree (ALL), the real ANY line must belong to that set."""
+    cfg = case["real"]
+    sim_status, sim_printed, sim_lines = simulated_reconcile(case, "all", cfg["order"], False)
+    for hashseed in cfg["hashseeds"]:
+        status, printed, lines = real_reconcile(case, "all", hashseed, False)
+        run.check((status, printed, lines) == (sim_status, sim_printed, sim_lines), ("C12",),
+                  "C12.real-process-differs",
+                  lambda: f"reconcile {case['algo']} --solutions all as a real process under "
+                          f"PYTHONHASHSEED={hashseed}: status {status}, printed {printed}, "
+                          f"{len(lines)} lines; the simulated process: status {sim_status}, "
+                          f"printed {sim_printed}, {len(sim_lines)} lines; only real "
+                          f"{sorted(set(lines) - set(sim_lines))[:1]}; only simulated "
+                          f"{sorted(set(sim_lines) - set(lines))[:1]}; document {_plain_doc(case)}")
+        status, printed, any_lines = real_reconcile(case, "any", hashseed, True)
+        run.check(status == sim_status and printed == sim_printed
+                  and set(any_lines) <= set(sim_lines), ("C12",), "C12.real-process-differs",
+                  lambda: f"reconcile {case['algo']} --solutions any to stdout as a real process "
+                          f"under PYTHONHASHSEED={hashseed}: status {status}, printed {printed}, "
+                          f"lines {any_lines[:1]} not among the {len(sim_lines)} written by "
+                          f"--solutions all; document {_plain_doc(case)}")
+        run.fault("real_process", 2)
+    run.nontrivial = True
+    run.event("real", sim_status, sim_printed, len(sim_lines))
+    return run
+
+
+def post_phase(pid, tier, base_seed, cases):
+    """After the seeded search: a sample of its cases is run again as real child processes of
+    the uninstrumented package (real files, streams, exit status and hash seeds) and compared
+    with the simulated processes - the fidelity check of seam S3."""
+    from .kernel import Violation, case_digest, derive_seed
+
+    limit = 24 if tier == "thorough" else 8
+    picked = []
+    for case in cases:
+        if len(picked) >= limit:
+            break
+        if case.get("algo") in ("exh",) and len(picked) % 2:
+            continue
+        picked.append(case)
+    out = {"evaluations": 0, "checks": 0, "faults": {}, "probes": {"real_cases": len(picked)},
+           "failure": None, "digests": []}
+    for i, case in enumerate(picked):
+        real_case = dict(case, fault=None, prior=None, short_io=False,
+                         env={"locale": "utf-8", "strict_warnings": False, "unicode_name": False},
+                         real={"hashseeds": [derive_seed(base_seed, "e4-real", i, j) % 4294967295
+                                             for j in range(2)],
+                               "order": 1 + i % 7})
+        run = Run(pid)
+        try:
+            real_check(run, real_case)
+        except Violation as v:
+            if out["failure"] is None:
+                out["failure"] = {"case": real_case, "label": v.label, "message": v.message}
+        out["evaluations"] += 1 + 4
+        out["checks"] += run.checks
+        for k, n in run.faults.items():
+            out["faults"][k] = out["faults"].get(k, 0) + n
+        out["digests"].append("real-" + case_digest(case))
+    return out
+
+
 def execute(case, focus=None):
     run = Run(focus)
+    if case.get("real"):
+        ORACLE.begin(0)
+        return real_check(run, case)
     spec = case["spec"]
     algo = case["algo"]
     mode = e1_solver.MODE[algo]
@@ -695,6 +835,9 @@ def describe(pid):
                 "(ENOSPC / EPIPE on the output, EIO on the input, or the process killed at a drawn "
                 "byte of its output: buffers lost, possibly a torn last line) in one of the "
                 "processes. "
+                "After the search 8 (24) sampled cases are run again as REAL child processes of the "
+                "uninstrumented package (real files, stdout, exit status, two real hash seeds "
+                "each) and compared with the simulated processes. "
                 "distinct = distinct case digest; every run drives several processes and is "
                 "counted non-trivial when at least one oracle comparison ran.",
         "real": ["superrec2.cli (argparse wiring, read_input, call_algorithm, dump_results, draw "
@@ -714,7 +857,7 @@ def describe(pid):
                             "F3_ENOSPC", "F3_EPIPE", "F3_EIO", "F3_CRASH", "F5_clock_jump", "draw_file",
                             "draw_stdout", "draw_pdf", "partially_named", "unnamed_ancestors",
                             "species_inferred_from_names", "stdin_input", "polytomy_input",
-                            "prefix_checked", "reconcile_to_stdout", "large_costs", "non_ascii_name",
+                            "prefix_checked", "reconcile_to_stdout", "large_costs", "non_ascii_name", "real_process",
                             "non_utf8_locale",
                             "prior_invocation_other_costs"],
     }
